@@ -25,6 +25,8 @@ def ext(name, note=None):
 
 
 def call_external(m, dotted, args, kw, node):
+    from . import npmodel  # noqa: F401  (registers the array model)
+
     fn = EXTERNAL.get(dotted)
     if fn is None:
         # typing constructs etc.
@@ -435,3 +437,15 @@ REMOVED_IN_NUMPY2 = {"numpy.NAN", "numpy.NaN", "numpy.Inf", "numpy.infty", "nump
 def op_itemgetter(m, args, kw, node):
     idx = args[0]
     return NativeFn("itemgetter", lambda mach, a, k, n, idx=idx: mach.getitem(a[0], idx, n))
+
+
+@ext("numpy.random.choice", "GLOBAL numpy RNG: arbitrary index in range (ambient randomness, cf. C11)")
+def np_random_choice(m, args, kw, node):
+    a = m.force(args[0], node)
+    m.assumption_notes.add("ambient:numpy.random.choice -- reads the process-global generator")
+    if isinstance(a, (int, Sym)):
+        n_t = m.z(a, "int")
+        r = m.fresh_scalar("int", "np.random.choice")
+        m.assume(z3.And(r.t >= 0, r.t < n_t))
+        return r
+    raise Unsupported("np.random.choice over a sequence", node)
